@@ -186,6 +186,13 @@ class Analysis:
         v = st.store.get(key)
         if v is not None:
             return v
+        # one byte of the byte image of an integer (`let [_, b1, b2, b3] = x.to_be_bytes()`)
+        if pl["p"] and isinstance(pl["p"][-1], dict) and "cix" in pl["p"][-1] and not pl["p"][-1].get("end"):
+            base = dict(pl)
+            base["p"] = pl["p"][:-1]
+            bv = st.store.get(self.key_of(st, base, bi, si))
+            if bv is not None and bv[0] == "bytes":
+                return ("bytepart", bv[2], bv[3], bv[4], int(pl["p"][-1]["cix"]))
         t = self.types[pl["t"]]
         nv = self.default_val(key, t, "%s@%d.%d" % (key, bi, si))
         if nv is not None:
@@ -807,6 +814,12 @@ class Analyzer(Analysis):
             if arr is not None and arr[0] == "bytes":
                 return ("int", arr[2], arr[3], arr[4])
             if arr is not None and arr[0] == "array":
+                parts = arr[2] if len(arr) > 2 and arr[2] else ()
+                if parts and all(x is not None and x[0] == "bytepart" for x in parts) and \
+                        len(set((x[1], x[2], repr(x[3])) for x in parts)) == 1 and \
+                        [x[4] for x in parts] == list(range(parts[0][4], parts[0][4] + len(parts))):
+                    # consecutive bytes of one integer's byte image: the same as `&x.to_be_bytes()[a..b]`
+                    return ("int-part", parts[0][1], parts[0][2], parts[0][3], Lin.const(parts[0][4]), Lin.const(len(parts)))
                 return ("array", arr[1], arr[3] if len(arr) > 3 else None)
             if sid in self.bases:
                 root, off = self.root_of(sid)
@@ -1030,6 +1043,32 @@ class Analyzer(Analysis):
                 r = int_range(dest_ty)
                 la = self.as_lin(vals[0]) if vals else None
                 m_ = re.search(r"::(from_be_bytes|from_le_bytes|from_ne_bytes)$", name)
+                if m_ and vals and vals[0] is not None and vals[0][0] == "array" and r is not None and vals[0][2] and \
+                        all(x is not None and x[0] == "lin" and len(x[1].t) == 1 and x[1].c == 0 and x[1].t[0][0].startswith("elem(") for x in vals[0][2]):
+                    # `from_be_bytes([data[p], data[p + 1], ..])`: single-byte reads at consecutive offsets of one slice are one
+                    # multi-byte read at the first offset
+                    names_ = [x[1].t[0][0] for x in vals[0][2]]
+                    offs_ = [self.elem_index.get(nm_) for nm_ in names_]
+                    roots_ = []
+                    for nm_ in names_:
+                        mm_ = re.match(r"^elem\(\*?(.*)\[.*\]\)$", nm_)
+                        roots_.append(self.root_of(mm_.group(1)) if mm_ else (None, None))
+                    okc_ = all(o is not None for o in offs_) and len(set(rt_[0] for rt_ in roots_)) == 1 and roots_[0][0] is not None
+                    if okc_:
+                        base_ = roots_[0][1] + offs_[0]
+                        okc_ = all((roots_[i][1] + offs_[i]) - base_ == Lin.const(i if m_.group(1) != "from_le_bytes" else i)
+                                   for i in range(len(offs_)))
+                    if okc_ and len(names_) * 8 == dest_ty["w"]:
+                        s_ = self.sym("rd%d" % bi, r)
+                        if self.final:
+                            self.reads.append({"bi": bi, "sym": "rd%d" % bi, "root": roots_[0][0], "off": base_, "width": len(names_),
+                                               "order": {"from_be_bytes": "BE", "from_le_bytes": "LE", "from_ne_bytes": "NE"}[m_.group(1)],
+                                               "signed": dest_ty["sg"], "sp": sp})
+                            self.elems = [e_ for e_ in self.elems if e_["sym"] not in names_]
+                        self.write(st, dest_key, ("lin", s_))
+                        if self.final:
+                            self.events.append(ev)
+                        return
                 if m_ and vals and vals[0] is not None and vals[0][0] == "arr" and r is not None:
                     s_ = self.sym("rd%d" % bi, r)
                     root, off = self.root_of(vals[0][1])
